@@ -61,12 +61,15 @@ package crypto
 //@ requires a != nil
 //@ requires in_len == 32 ==> valid(in, 32)
 //@ assigns *a
-//@ ensures result == valid || result == badEncoding || result == badValue
-//@ ensures in_len != 32 ==> result == badEncoding
+//@ ensures [codes] result == VALID || result == BAD_ENCODING || result == BAD_VALUE
+//@ ensures [length] in_len != 32 ==> result == BAD_ENCODING
+//@ ensures [accepts-exactly-1-to-r-1] in_len == 32 ==> (result == VALID) == old(1 <= be32(in[0:32]) && be32(in[0:32]) < FrR())
+//@ ensures [value] result == VALID ==> *a == old(be32(in[0:32]))
 
 //@ cfunc Fr_write_bytes props C05 C09
 //@ requires a != nil && valid(out, 32)
 //@ assigns out[0:32]
+//@ ensures be32(out[0:32]) == *a
 
 //@ cfunc G2_check_log pure props C07 C09
 //@ requires x != nil && y != nil
@@ -110,6 +113,8 @@ package crypto
 // small Go wrappers around the C glue
 
 //@ func readScalarFrStar mode int props C05 C09
+//@ dead-return 1   // Fr_star_read_bytes only returns VALID, BAD_ENCODING or BAD_VALUE
+//@ dead-return 2   // the length was checked before the call: BAD_ENCODING cannot come back
 //@ requires a != nil
 //@ assigns *a
 //@ ensures result == nil || iserr(result, *invalidInputsError)
@@ -1027,3 +1032,23 @@ package crypto
 //@ requires res != nil && expo != nil
 //@ assigns *res
 //@ ensures *res == g2mulJ(old(*expo))
+
+// ---- F_r scalars (C05)
+
+//@ cfunc pow256_from_be_bytes nobody params ret a
+//@ requires valid(ret, 32) && valid(a, 32)
+//@ assigns ret[0:32]
+//@ ensures le32(ret[0:32]) == old(be32(a[0:32]))
+
+//@ cfunc check_mod_256 nobody pure params a p
+//@ requires valid(a, 32) && p != nil
+//@ assigns nothing
+//@ ensures (result != 0) == (le32(a[0:32]) < FrR())
+
+//@ cfunc Fr_read_bytes props C05 C09
+//@ requires a != nil
+//@ requires in_len == 32 ==> valid(in, 32)
+//@ assigns *a
+//@ ensures [length] in_len != 32 ==> result == BAD_ENCODING
+//@ ensures [range] in_len == 32 ==> (result == VALID) == old(be32(in[0:32]) < FrR()) && (result == VALID || result == BAD_VALUE)
+//@ ensures [value] result == VALID ==> *a == old(be32(in[0:32]))
